@@ -51,18 +51,24 @@ var goroutineHdr = regexp.MustCompile(`(?m)^goroutine (\d+) \[([^\],]+)`)
 // quiescent: every goroutine of THIS run — the goroutine that called flyt.Run (id `runner`) and the
 // goroutines it created (the pool's workers: "created by … in goroutine <runner>") — is blocked in a state
 // only the harness can resolve. Goroutines of earlier runs in this process never count.
-func quiescent(buf []byte, runner int) bool {
+func quiescent(buf []byte, runner int) bool { return quiescentOf(buf, runner, -1) }
+
+// quiescentOf considers goroutine `runner` (which must exist, if >= 0), the goroutines created by it, and
+// the goroutines created by `owner` (if >= 0).
+func quiescentOf(buf []byte, runner, owner int) bool {
 	n := runtime.Stack(buf, true)
-	seenRunner := false
+	seenRunner := runner < 0
 	rid := []byte(strconv.Itoa(runner))
 	created := []byte(" in goroutine " + strconv.Itoa(runner) + "\n")
+	createdO := []byte(" in goroutine " + strconv.Itoa(owner) + "\n")
 	for _, g := range bytes.Split(append(buf[:n:n], '\n'), []byte("\n\n")) {
 		m := goroutineHdr.FindSubmatch(g)
 		if m == nil {
 			continue
 		}
-		isRunner := bytes.Equal(m[1], rid)
-		if !isRunner && !bytes.Contains(append(g, '\n'), created) {
+		isRunner := runner >= 0 && bytes.Equal(m[1], rid)
+		gn := append(g, '\n')
+		if !isRunner && !(runner >= 0 && bytes.Contains(gn, created)) && !(owner >= 0 && bytes.Contains(gn, createdO)) {
 			continue
 		}
 		if isRunner {
